@@ -491,12 +491,45 @@ def run(facts, cg):
             for bi, t in ups:
                 term = simplify(T.of_operand(b, t['args'][1]))
                 s = show(term)
-                starts_at_zero = 'RangeTo' in s or 'start: 0' in s
+                starts_at_zero = 'RangeTo' in s or 'start: 0' in s or (isinstance(term, tuple) and term[0] == 'field' and term[2] in (0, '0') and
+                                                                      isinstance(term[1], tuple) and term[1][0] == 'call' and term[1][1].split('::')[-1] in ('split_at', 'split_at_checked'))
                 instances.append({'rule': 'R-HASHRANGE', 'function': b.q, 'hashed': s[:140]})
                 if not starts_at_zero:
                     finding('R-HASHRANGE', b.q, 'range-start', 'the header checksum is not computed from offset 0 of the header')
             if not ups:
                 finding('R-HASHRANGE', b.q, 'floor', 'no hasher update found in try_init (cannot decide)')
+            # ... and the stored checksum it is compared with is the 64 bytes that follow: a slice with an end (or an array of 64).  "All
+            # that follows the offset" is shorter for a header that was cut off inside its checksum, and two hash sums are compared over
+            # their common length: a stored checksum of 0..63 bytes matches (nearly) anything - an altered, truncated header is accepted
+            froms = [(bi, t) for bi, t in b.calls() if (t['callee'].get('rq') or '').startswith('<bitar::hashsum::HashSum as core::convert::From')]
+            for bi, t in froms:
+                term = simplify(T.resolve_env(simplify(T.of_operand(b, t['args'][0]))))
+                if not any(n_[0] == 'call' and n_[1].split('::')[-1] in ('get', 'index', 'split_at', 'try_into', 'first_chunk', 'last_chunk') for n_ in walk(term)):
+                    continue
+                # the slicing operation at the top of the term (wrappers peeled), not one somewhere inside an offset computation
+                cur, part = term, None
+                for _ in range(12):
+                    if not isinstance(cur, tuple):
+                        break
+                    if cur[0] in ('try', 'variant', 'cast'):
+                        cur = cur[-1] if cur[0] != 'try' else cur[1]
+                    elif cur[0] == 'field':
+                        part = cur[2]
+                        cur = cur[1]
+                    elif cur[0] == 'call' and cur[1].split('::')[-1] in ('ok_or_else', 'ok_or', 'unwrap', 'expect', 'map_err', 'as_ref', 'deref', 'borrow', 'as_slice', 'branch', 'from_residual') and cur[2]:
+                        cur = cur[2][0]
+                    else:
+                        break
+                outer = cur if isinstance(cur, tuple) and cur[0] == 'call' else None
+                oname = outer[1].split('::')[-1] if outer else None
+                rng = outer[2][1] if outer and oname in ('get', 'index') and len(outer[2]) == 2 else None
+                closed = isinstance(rng, tuple) and rng[0] == 'agg' and str(rng[1]).split('::')[-1] in ('Range', 'RangeInclusive')
+                arr = oname in ('try_into', 'first_chunk', 'last_chunk', 'split_first_chunk', 'first_chunk_mut') or \
+                    (oname in ('split_at', 'split_at_checked') and part in (0, '0') and False)
+                instances.append({'rule': 'R-HASHRANGE(stored)', 'function': b.q, 'at': t['loc'], 'slice_has_an_end': bool(closed or arr)})
+                if not (closed or arr):
+                    finding('R-HASHRANGE', b.q, 'stored-checksum-open-ended', 'the stored header checksum is taken as "what follows its offset" at %s (%s): for a header cut off inside '
+                            'the checksum it is shorter than 64 bytes and matches by common prefix - a truncated, altered header is accepted as valid' % (t['loc'], show(rng)[:60] if rng else '?'))
 
     # ---------------------------------------------------------------- R-HEADERSEQ (C11): header::build appends magic, size, dictionary, offset, checksum
     from .r_dictwiring import root_local
